@@ -23,6 +23,12 @@ func runC04(w *World, r *Report) {
 	r.Rule("C04-R4", "close never emits", "in NewBarrier's goroutine the CloseChan case cannot reach the completion callback; StopReadCollection / Close never send or Write a barrier signal", 2)
 	r.Rule("C04-R5", "after firing", "collection callback: droppedCollections.Store and stopReadChannel for every physical channel on the sent branch; partition callback: droppedPartitions.Store and RemovePartitionInfo for every handler", 4)
 	r.Rule("C04-R6", "the drop event names the dropped object", "DropCollection: CollectionInfo<-the catalog info, MsgID<-GetDropCollectionMsgID(info.ID), MsgTimestamp<-barrier time; DropPartition: CollectionInfo, PartitionInfo<-the catalog infos, Database<-the source database, MsgID<-GetDropPartitionMsgID(collection, partition)", 2)
+	r.Rule("C04-R7", "drop bookkeeping is keyed by source ids", "the dropped-collection / dropped-partition sets, the handler's RemoveCollection / RemovePartitionInfo and the synthetic drop messages built for objects dropped while CDC was down receive SOURCE ids, never a message id field after it was overwritten with the downstream id (same analysis as C02-R7, restricted to the drop bookkeeping)", 8)
+	if m := buildHPModel(w); m != nil {
+		c02IDDomains(w, r, m, "C04-R7", true)
+	} else {
+		r.Undecided("C04-R7", "handlePack", 0, "anchor not found")
+	}
 
 	// ---------- R1
 	nSend := 0
